@@ -75,9 +75,9 @@ fn mesh_canon(m: &Mesh) -> Vec<[[u32; 3]; 3]> {
     v.sort();
     v
 }
-fn rm<F: Function + MathFunction + fidget_core::render::RenderHints + Clone>(g: &GenShape, depth: u8, threads: Option<&ThreadPool>, cancel: CancelToken) -> Option<Vec<[[u32; 3]; 3]>> {
+fn rm<F: Function + MathFunction + fidget_core::render::RenderHints + Clone>(g: &GenShape, depth: u8, mat: nalgebra::Matrix4<f32>, threads: Option<&ThreadPool>, cancel: CancelToken) -> Option<Vec<[[u32; 3]; 3]>> {
     let shape = Shape::<F>::new(&g.ctx, g.root).unwrap();
-    let settings = Settings { depth, world_to_model: nalgebra::Matrix4::identity(), threads, cancel };
+    let settings = Settings { depth, world_to_model: mat, threads, cancel };
     let bound = shape.try_into().ok()?;
     Octree::build(&bound, &settings).map(|o| mesh_canon(&o.walk_dual()))
 }
@@ -156,6 +156,26 @@ pub fn run(seed: u64, count: usize, outdir: &str) -> std::io::Result<i32> {
             uninstall();
             (tasks_seq, polls_seq, tasks_par, total, cancel_out)
         }}; }
+        // ---- Image::apply_effect (behind to_rgba_bitmap, denoise_normals, apply_shading ...): every pixel of every row is
+        // written exactly as without a pool, for any image height and pool size
+        if ci % 8 == 0 {
+            let (w, h) = (r.range(1, 70) as u32, r.range(1, 140) as u32);
+            let f = |x: usize, y: usize| -> u32 { (x as u32).wrapping_mul(2654435761).wrapping_add((y as u32).wrapping_mul(40503)) | 1 };
+            let mut want = fidget_raster::Image::<u32>::new(ImageSize::new(w, h));
+            want.apply_effect(f, None);
+            let mut ok_ref = true;
+            for y in 0..h as usize { for x in 0..w as usize { if want[(y, x)] != f(x, y) { ok_ref = false; } } }
+            if !ok_ref { bad.push(format!("kind=apply-effect-wrong-pixel backend={backend} {w}x{h} without a pool")); }
+            for n in [1usize, 2, 3, 5, 8, 16] {
+                let p = pool(n);
+                let mut got = fidget_raster::Image::<u32>::new(ImageSize::new(w, h));
+                got.apply_effect(f, Some(&p));
+                let mut diff = None;
+                for y in 0..h as usize { for x in 0..w as usize { if got[(y, x)] != want[(y, x)] && diff.is_none() { diff = Some((x, y)); } } }
+                if let Some((x, y)) = diff { bad.push(format!("kind=pool-changes-result backend={backend} apply_effect on {w}x{h} with {n} threads: pixel ({x}, {y}) differs from the run without a pool")); break; }
+            }
+            *hist.entry("apply-effect-runs".into()).or_default() += 1;
+        }
         match kind {
             0 => {
                 let g = if r.chance(0.6) { gen_csg(&mut r, false, false) } else { gen_expr(&mut r) };
@@ -177,9 +197,13 @@ pub fn run(seed: u64, count: usize, outdir: &str) -> std::io::Result<i32> {
                 for (n, t, _) in tp { if t != ts { bad.push(format!("kind=task-count backend={backend} render3d: {t} tile tasks with {n} threads, {ts} without a pool")); } }
             }
             2 => {
-                let g = gen_csg(&mut r, true, true);
+                // (flat shapes - slabs, boxes - make whole task cells collapse; a world-to-model transform makes vertex coordinates
+                //  depend on WHERE in the pipeline it is applied)
+                let g = if r.chance(0.3) { gen_oblique(&mut r) } else { gen_csg(&mut r, true, true) };
                 let depth = *r.pick(&[0u8, 1, 2, 3, 4, 5]);
-                let (_ts, _ps, tp, _total, _co) = if jit { compare_pools!("mesh", |t, k| rm::<JitFunction>(&g, depth, t, k), task) } else { compare_pools!("mesh", |t, k| rm::<VmFunction>(&g, depth, t, k), task) };
+                let mat = match r.below(3) { 0 => nalgebra::Matrix4::identity(), 1 => nalgebra::Matrix4::new_scaling(1.0 + r.unit() as f32 * 0.5),
+                    _ => nalgebra::Matrix4::new_translation(&nalgebra::Vector3::new(0.05, -0.03, 0.04)) * nalgebra::Matrix4::new_nonuniform_scaling(&nalgebra::Vector3::new(1.2, 0.9, 1.1)) };
+                let (_ts, _ps, tp, _total, _co) = if jit { compare_pools!("mesh", |t, k| rm::<JitFunction>(&g, depth, mat, t, k), task) } else { compare_pools!("mesh", |t, k| rm::<VmFunction>(&g, depth, mat, t, k), task) };
                 let (n, t, _) = tp[0];
                 line = format!("c09 octree {depth} {n}");
                 il = format!("tasks {t}");
